@@ -575,6 +575,8 @@ where
             }
 
             let (permitted, trial) = {
+                #[cfg(feature = "verif-hooks")]
+                tower_resilience_core::verif::yield_async("circuitbreaker.lock.admission").await;
                 let mut circuit = circuit.lock().await;
                 let permitted = circuit.try_acquire(&config);
                 let trial = if permitted {
@@ -611,6 +613,8 @@ where
             let result = inner.call(req).await;
             let duration = crate::circuit::clock_now().duration_since(start);
 
+            #[cfg(feature = "verif-hooks")]
+            tower_resilience_core::verif::yield_async("circuitbreaker.lock.record").await;
             let mut circuit = circuit.lock().await;
             drop(trial);
             if config.failure_classifier.classify(&result) {
@@ -752,6 +756,8 @@ where
             }
 
             let (permitted, trial) = {
+                #[cfg(feature = "verif-hooks")]
+                tower_resilience_core::verif::yield_async("circuitbreaker.lock.admission").await;
                 let mut circuit = circuit.lock().await;
                 let permitted = circuit.try_acquire(&config);
                 let trial = if permitted {
@@ -794,6 +800,8 @@ where
             let result = inner.call(req).await;
             let duration = crate::circuit::clock_now().duration_since(start);
 
+            #[cfg(feature = "verif-hooks")]
+            tower_resilience_core::verif::yield_async("circuitbreaker.lock.record").await;
             let mut circuit = circuit.lock().await;
             drop(trial);
             if config.failure_classifier.classify(&result) {
